@@ -8,6 +8,7 @@ if ! git -C $WT apply $PATCH; then echo "SEED-CHECK: patch does not apply to cur
 ED=$(mktemp -d /tmp/chk-ev-XXXXXX)
 VERIF_REPO=$WT VERIF_EVIDENCE_DIR=$ED VERIF_REPLAY_DIR=$ED python3 /verif/check.py $P --tier $TIER 2>&1 | tail -${SEED_TAIL:-8}
 rc=${PIPESTATUS[0]}
+[ -n "$SEED_KEEP_REPLAYS" ] && { mkdir -p $SEED_KEEP_REPLAYS; cp -r $ED/. $SEED_KEEP_REPLAYS/; }
 git -C /repo worktree remove --force $WT; rm -rf $ED
 echo "SEED-CHECK rc=$rc"
 exit $rc
